@@ -250,6 +250,7 @@ class Solver:  # pylint: disable=too-many-instance-attributes
         # concrete accepting run ends that way) makes the lower reading exact; otherwise the end
         # "may accept" and the caller must not use the lower sets as a demand.
         self.end_accepts = end_accepts
+        self.avoid: Set[int] = set()  # blocks no path may pass (used by the credit clause of C09)
         self.sm = summaries if summaries is not None else summarize(g)
         self.states = 0
         self.transitions = 0
@@ -258,6 +259,8 @@ class Solver:  # pylint: disable=too-many-instance-attributes
 
     # -- helpers ----------------------------------------------------------------
     def passable(self, b: int, v: Any, dim: Dimension) -> bool:
+        if b in self.avoid:
+            return False
         for c in self.sm[b].asserts:
             if T not in truth(c, v, dim):
                 return False
@@ -699,6 +702,32 @@ def check_c09_abstract(case: Any, item: Any, res: Any, single_atom: bool) -> Non
             if not max(lo) <= ctx.max_fee <= max(exf[rb]):
                 res.violation("C09.single-check-not-exact", item, block=tb.entry_instr.line, expected=max(lo), actual=ctx.max_fee)
             res.count("single_check_exact_blocks")
+
+
+def check_c09_credit(case: Any, item: Any, res: Any) -> None:
+    """Credit clause for every program, whatever the comparands are: a block that lies on an
+    accepting path which never touches an instruction reading Fee cannot be credited with a bound
+    (known <= 272000, or 'unknown but bounded')."""
+    g = case.g
+    ea = end_accepts(case)
+    if not lower_usable(case, ea):
+        res.count("lower_sets_not_demanded_end_of_text_may_approve")
+        return
+    solver = Solver(g, end_accepts=ea)
+    solver.avoid = {b for b in g.retained_blocks if any(g.lines[i].args and g.lines[i].args[-1] == "Fee" for i in g.blocks[b])}
+    if not solver.avoid:
+        return
+    good, _ = solver.solve(None, Dimension())
+    res.count("o2_states", solver.states)
+    res.count("o2_transitions", solver.transitions)
+    for rb, tb in _tealer_blocks(case):
+        if rb not in good:
+            continue
+        ctx = case.ctx(tb)
+        res.count("o2_block_checks")
+        if ctx.max_fee_unknown or ctx.max_fee <= 272000:
+            res.violation("C09.credit-without-any-fee-comparison", item, block=tb.entry_instr.line, max_fee=ctx.max_fee,
+                          unknown=ctx.max_fee_unknown)
 
 
 def check_c08_converse(case: Any, item: Any, res: Any, field: str, attr: str) -> None:
